@@ -62,7 +62,9 @@ def flat_members(members, hidden=False):
         if "group" in x:
             out += flat_members(x["group"], hidden or h)
         else:
-            out.append((hidden or h, x))
+            # an enum declared with #[command(skip_autocomplete, skip_help)] and hand-written EMPTY Autocomplete / Help impls offers no
+            # candidate and knows no command in help, but still parses: exactly a hidden member
+            out.append((hidden or h or x.get("skip") is True, x))
     return out
 
 def rust_str(s):
@@ -111,6 +113,17 @@ class Emitter:
         lines = ["#[derive(Debug, Clone, Command, PartialEq)]"]
         if e.get("title") is not None:
             lines.append("#[command(help_title = %s)]" % rust_str(e["title"]))
+        if e.get("skip") is True:
+            lines.append("#[command(skip_autocomplete, skip_help)]")
+            self.items.append(SKIP_IMPLS.replace("IDENT", ident).replace("LT", lt))
+        elif e.get("skip") in ("a", "h"):
+            # only ONE of the two derives is skipped; the hand-written impl delegates to a twin enum with the same declaration whose
+            # derives are complete, so the behaviour must be that of the plain declaration
+            twin = dict(e)
+            twin["skip"] = None
+            self.emit_enum(twin, ident + "T")
+            lines.append("#[command(%s)]" % ("skip_autocomplete" if e["skip"] == "a" else "skip_help"))
+            self.items.append((SKIP_A if e["skip"] == "a" else SKIP_H).replace("IDENT", ident).replace("LT", lt))
         lines.append("pub enum %s%s {" % (ident, lt))
         canon_arms = []
         for c in e["cmds"]:
@@ -264,6 +277,46 @@ fn ses_d%d(cap: usize, hcap: usize, pi: usize, ops: &str) -> String {
 """ % (k, top, top, anon, top, anon)
         self.items.append(fn)
 
+
+SKIP_IMPLS = """// hand-written (empty) impls for an enum whose derive was told to skip them
+implLT embedded_cli::service::Autocomplete for IDENTLT {
+    #[cfg(feature = "autocomplete")]
+    fn autocomplete(_request: embedded_cli::autocomplete::Request<'_>, _autocompletion: &mut embedded_cli::autocomplete::Autocompletion<'_>) {}
+}
+implLT embedded_cli::service::Help for IDENTLT {
+    #[cfg(feature = "help")]
+    fn command_count() -> usize { 0 }
+    #[cfg(feature = "help")]
+    fn list_commands<W: embedded_io::Write<Error = E>, E: embedded_io::Error>(_writer: &mut embedded_cli::writer::Writer<'_, W, E>) -> Result<(), E> { Ok(()) }
+    #[cfg(feature = "help")]
+    fn command_help<W: embedded_io::Write<Error = E>, E: embedded_io::Error, F: FnMut(&mut embedded_cli::writer::Writer<'_, W, E>) -> Result<(), E>>(
+        _parent: &mut F, _command: embedded_cli::command::RawCommand<'_>, _writer: &mut embedded_cli::writer::Writer<'_, W, E>,
+    ) -> Result<(), embedded_cli::service::HelpError<E>> { Err(embedded_cli::service::HelpError::UnknownCommand) }
+}
+"""
+
+SKIP_A = """implLT embedded_cli::service::Autocomplete for IDENTLT {
+    #[cfg(feature = "autocomplete")]
+    fn autocomplete(request: embedded_cli::autocomplete::Request<'_>, autocompletion: &mut embedded_cli::autocomplete::Autocompletion<'_>) {
+        <IDENTT as embedded_cli::service::Autocomplete>::autocomplete(request, autocompletion)
+    }
+}
+"""
+SKIP_H = """implLT embedded_cli::service::Help for IDENTLT {
+    #[cfg(feature = "help")]
+    fn command_count() -> usize { <IDENTT as embedded_cli::service::Help>::command_count() }
+    #[cfg(feature = "help")]
+    fn list_commands<W: embedded_io::Write<Error = E>, E: embedded_io::Error>(writer: &mut embedded_cli::writer::Writer<'_, W, E>) -> Result<(), E> {
+        <IDENTT as embedded_cli::service::Help>::list_commands(writer)
+    }
+    #[cfg(feature = "help")]
+    fn command_help<W: embedded_io::Write<Error = E>, E: embedded_io::Error, F: FnMut(&mut embedded_cli::writer::Writer<'_, W, E>) -> Result<(), E>>(
+        parent: &mut F, command: embedded_cli::command::RawCommand<'_>, writer: &mut embedded_cli::writer::Writer<'_, W, E>,
+    ) -> Result<(), embedded_cli::service::HelpError<E>> {
+        <IDENTT as embedded_cli::service::Help>::command_help(parent, command, writer)
+    }
+}
+"""
 
 HEADER = """//! GENERATED by gen/declgen.py - do not edit. Derived command sets compiled with the repository's macros.
 #![allow(dead_code, unused_imports, unused_variables, non_camel_case_types, clippy::all)]
@@ -478,12 +531,30 @@ def corpus_sets():
     sets.append({"kind": "group", "members": [(False, {"group": [(False, n1), (False, n2)]}), (False, o1)]})
     sets.append({"kind": "group", "members": [(False, o1), (False, {"group": [(False, n1), (True, n2), (False, e10e), (False, {"group": [(False, n3), (False, e10e)]})]}),
                                                (True, {"group": [(False, e10h), (False, n2)]}), (False, {"group": [(False, e10e)]})]})
+    # 13: members whose derive SKIPS Autocomplete and Help (#[command(skip_autocomplete, skip_help)], empty hand-written impls): they parse,
+    #     offer no candidates, are not listed and have no help; the other members are untouched. Names shared with visible members.
+    sk1 = {"title": "Skipped", "skip": True, "cmds": [unit("Status", doc="Skipped status"), unit("Secret", doc="Never listed"),
+           {"variant": "Level", "name": None, "doc": "Takes a value", "sub": None, "args": [arg("value", "pos", "u8", doc="The level")]}]}
+    sk2 = {"title": None, "skip": True, "cmds": [unit("Stop"), unit("Stat")]}
+    v1 = {"title": "Shown", "cmds": [unit("Start", doc="Start it."), unit("Status", doc="Visible status"), unit("Led")]}
+    sets.append({"kind": "group", "members": [(False, sk1), (False, v1), (False, {"group": [(False, sk2), (False, e10b)]})]})
+    # 14, 15: ONE derive skipped, the hand-written impl delegates to a twin with complete derives (behaviour of the plain declaration)
+    ska = {"title": "Manual completion", "skip": "a", "cmds": [unit("Start", doc="Start it."), unit("Status", doc="Show\u2003status\u00a0\n\u2002\nSecond\u0085"),
+           {"variant": "Level", "name": None, "doc": "Takes a value", "sub": None, "args": [arg("value", "pos", "u8", doc="The level"), arg("fast", "flag", "bool", long=True, short=True)]}]}
+    skh = {"title": "Manual help", "skip": "h", "cmds": [unit("Stop", doc="Stop it"), unit("Stat"),
+           {"variant": "Name", "name": None, "doc": "Takes a name.\n\nLong text", "sub": None, "args": [arg("who", "opt", "str", long=True, short=True, optional=True, doc="Who")]}]}
+    sets.append({"kind": "enum", "enum": ska})
+    sets.append({"kind": "group", "members": [(False, skh), (False, ska)]})
+    return sets
     return sets
 
 VARIANTS = ["Get", "GetLed", "GetAdc", "Set", "SetLed", "Go", "Status", "Stat", "Start", "Stop", "Helper", "Hello", "He", "Exit", "Led", "Adc", "A", "Ab", "Abc", "Xy"]
 FIELDS = ["name", "level", "verbose", "file", "value", "item", "count", "mode", "ch", "flag_x", "out_file", "k", "host", "hex", "help_me"]
 DOCS = [None, None, "Do something", "Short text.", "Two sentences. Here..", "First paragraph\nstill first\n\nSecond paragraph.", "Trailing dots..",
-        "One.\n\n\nTwo after two blank lines.", "A\n  \n\n \nB\nb\n\nC..", "\nLeading blank", "Trailing blanks\n\n"]
+        "One.\n\n\nTwo after two blank lines.", "A\n  \n\n \nB\nb\n\nC..", "\nLeading blank", "Trailing blanks\n\n",
+        # the other Unicode White_Space characters (str::trim strips them, a line made of them is blank)
+        "\u00a0Padded with no-break and ideographic space\u3000", "Para one\n\u2003\nPara two.", "Next line char at the end\u0085",
+        "\u1680ogham and line separator\u2028", "Inner\u2003space stays.\u205f\u202f", "\u2000\u200a\nOnly the second line\n\u2029"]
 
 def rand_enum(rng, depth=0, used=None):
     ncmds = rng.choice([1, 2, 3, 4, 5])
@@ -546,6 +617,8 @@ def rand_set(rng):
         members = [(rng.randrange(4) == 0, rand_enum(rng, 1)) for _ in range(n)]
         if all(h for h, _ in members):
             members[0] = (False, members[0][1])
+        if n > 1 and rng.randrange(4) == 0:
+            members[-1][1]["skip"] = rng.choice([True, "a", "h"])          # derive told to skip Autocomplete and / or Help; hand-written impls
         if rng.randrange(3) == 0:
             # a nested group as one more member (somewhere in the order), sometimes with an empty or a hidden member inside
             inner = [(rng.randrange(4) == 0, rand_enum(rng, 1)), (False, {"title": "None", "cmds": []} if rng.randrange(3) == 0 else rand_enum(rng, 1))]
